@@ -754,6 +754,58 @@ func init() {
 			return false, "native two-goroutine run showed no race: " + firstLines(status, 3)
 		},
 	}
+	propDefs["C15"] = &PropDef{
+		ID:       "C15",
+		Patterns: []string{"./avc", "./hevc"},
+		InitPkgs: []string{mod + "/avc", mod + "/hevc"},
+		Instances: func(tier string, L *Loaded) []*HarnessCfg {
+			var r []*HarnessCfg
+			p := mod + "/avc"
+			classes := []int{0, 1, 3, 8}
+			if tier == "thorough" {
+				classes = []int{0, 1, 2, 3, 4, 5, 6, 7, 8, 100, 102, 104}
+			}
+			for v := 0; v < 64; v++ {
+				if tier != "thorough" && v%3 != 0 && v != 63 {
+					continue
+				}
+				for _, cl := range classes {
+					c := inst(p, "VerifC15SPS", itoa(v), itoa(cl))
+					r = append(r, c)
+				}
+			}
+			sclasses := []int{0, 1, 1001, 3, 1008}
+			if tier == "thorough" {
+				sclasses = []int{0, 1, 1001, 2, 1002, 3, 1003, 4, 1004, 5, 1006, 8, 1008, 101, 1103}
+			}
+			for _, v := range []int{0, 1, 2, 3, 9, 16, 33, 40} {
+				for _, cl := range sclasses {
+					for _, more := range []string{"false", "true"} {
+						for _, idr := range []string{"true", "false"} {
+							if tier != "thorough" && ((more == "true") != (idr == "false") || cl%100 >= 5 && v > 3) {
+								continue
+							}
+							r = append(r, inst(p, "VerifC15PPSSlice", itoa(v), itoa(cl), more, idr))
+						}
+					}
+				}
+			}
+			for _, v := range []int{0, 1, 3, 17, 32} {
+				for _, cl := range []int{0, 1001} {
+					c := inst(p, "VerifC15Config", itoa(v), itoa(cl))
+					c.PreciseFmt = true
+					r = append(r, c)
+				}
+			}
+			for _, c := range r {
+				c.MaxWallS = tierW(tier, 90, 900)
+				c.IfConvFuncs = map[string]bool{"(*" + mod + "/bits.EBSPReader).Read": true, mod + "/avc.ParseSliceHeader": true}
+			}
+			return r
+		},
+		Bounds: func(tier string) map[string]interface{} { return map[string]interface{}{} },
+		Covers: []string{"sps compared", "pps compared", "slice compared", "config compared"}, RequireCovers: true,
+	}
 	propDefs["C13"] = &PropDef{
 		ID:       "C13",
 		Patterns: []string{"./bits"},
